@@ -395,7 +395,7 @@ theorem resolveRefsLoop_ne_err_G (env : Env) (top : NodeId) (dr : Draft) (b : Ur
       KeysIn (Reach env.st root) root (Uri.toString ret0) s → (∀ id ∈ ids, Reach env.st root id) →
       (∀ id ∈ ids, ∀ n, env.st.get? id = some n →
         (n.ref ≠ "" → Doc.RefGood env top b ⟨env.st, dr, root⟩ ret0 id n.ref) ∧
-        (n.dynamicRef ≠ "" → Doc.RefGood env top b ⟨env.st, dr, root⟩ ret0 id n.dynamicRef)) →
+        (dr = .d2020 → n.dynamicRef ≠ "" → Doc.RefGood env top b ⟨env.st, dr, root⟩ ret0 id n.dynamicRef)) →
       resolveRefsLoop env recDoc root ids s ≠ .err := by
   intro ids
   induction ids with
@@ -435,8 +435,10 @@ theorem resolveRefsLoop_ne_err_G (env : Env) (top : NodeId) (dr : Draft) (b : Ur
         · rename_i hne
           refine bind_ne_err ?_ fun _ _ => by simp
           subst hret1
+          rw [hinv1.drafts.draftOf root hreg1] at hne
+          simp only [Bool.and_eq_true, bne_iff_ne, ne_eq, beq_iff_eq] at hne
           exact resolveRef_ne_err_G env top dr b recDoc hrecG hrecA hrecN hfresh U rets1 s1 root id n.dynamicRef hinv1
-            hkeys1 hwf hid (d2 (by simpa using hne))
+            hkeys1 hwf hid (d2 hne.2 hne.1)
         · simp
       have g2 : ∃ rets2, CInv env top dr b rets2 s2 ∧ Registered s2 root ∧ rets2 root = ret0 ∧
           KeysIn (Reach env.st root) root (Uri.toString ret0) s2 := by
